@@ -177,6 +177,33 @@ def eliminate_returns_flag(stmts, target, flag):
     return [init] + body + [tail]
 
 
+def _drop_discarded(stmts, name):
+    """the call's value was discarded by the caller: `name = <constant>` goes,
+    `name = expr` is just `expr`"""
+    out = []
+    for s in stmts:
+        for field in ("body", "orelse", "finalbody"):
+            blk = getattr(s, field, None)
+            if isinstance(blk, list) and blk and isinstance(blk[0], ast.stmt) \
+                    and not isinstance(s, (ast.FunctionDef, ast.ClassDef,
+                                           ast.AsyncFunctionDef)):
+                nb = _drop_discarded(blk, name)
+                setattr(s, field, nb or ([ast.copy_location(ast.Pass(), s)]
+                                         if field == "body" else []))
+        if isinstance(s, ast.Try):
+            for h in s.handlers:
+                h.body = _drop_discarded(h.body, name) or [
+                    ast.copy_location(ast.Pass(), h)]
+        if isinstance(s, ast.Assign) and len(s.targets) == 1 and \
+                isinstance(s.targets[0], ast.Name) and s.targets[0].id == name:
+            if isinstance(s.value, (ast.Constant, ast.Name)):
+                continue
+            out.append(ast.copy_location(ast.Expr(value=s.value), s))
+            continue
+        out.append(s)
+    return out
+
+
 def split_tuple_assigns(stmts):
     """`a, b = (x, y)` -> `a = x; b = y` when sequential assignment equals the
     parallel one (no target is read by a later element); `a = a` is dropped."""
@@ -786,6 +813,9 @@ class Expander(object):
             except _NotStructured:
                 return None
         out = split_tuple_assigns(binds + new + post)
+        if isinstance(s, ast.Expr):
+            out = _drop_discarded(out, target().id) or [
+                ast.copy_location(ast.Pass(), s)]
         for n in out:
             ast.fix_missing_locations(n)
         return out, call[1][0].name
